@@ -300,8 +300,10 @@ def run_contract(contract, funsigs=None, options=None, others=(), reset_unique=T
     # thread is using the same z3 context (z3 is not thread safe): collect only at this safe point
     import gc
 
-    gc.collect()
-    gc.disable()
+    nogc = os.environ.get("VERIF_E2E_GC") != "free"
+    if nogc:
+        gc.collect()
+        gc.disable()
     try:
         with contextlib.redirect_stdout(buf), contextlib.redirect_stderr(buf):
             try:
@@ -311,7 +313,8 @@ def run_contract(contract, funsigs=None, options=None, others=(), reset_unique=T
                     raise
                 rr.exception = e
     finally:
-        gc.enable()
+        if nogc:
+            gc.enable()
     rr.stdout = buf.getvalue()
     rr.logs = hdriver.drain_logs()
     return rr
